@@ -285,6 +285,107 @@ def cancel_tie():
                     "CancelGen.")
 
 
+def expire_tie():
+    """OrderBook._check_expired_orders / _set_time (C04): which orders leave the book when its clock is set"""
+    import py2coq_expire
+    src = os.path.join(REPO, "pams", "order_book.py")
+    return _run_tie("translator:pams/order_book.py(_check_expired_orders)", src, lambda: py2coq_expire.translate(REPO), "ExpireGen.v",
+                    "ExpireC04Proofs.v", "ExpireGen.")
+
+
+def expiry_sweep_c04(seed=0, tier="quick", cov=None):
+    """directed search used with the C04 expiry tie: a real Market with a logger; orders with every time to live are accepted over a few
+    single steps, some partially filled, then the clock is set forward by one or by SEVERAL steps (Market._set_time, the entry point the
+    repository's own tests use for it, and _update_time); after every clock move the property is read off directly: an order leaves the
+    book exactly when the clock has passed accept time + ttl - not resting afterwards, resting before - with exactly one expiry record
+    carrying its remaining volume, and accepted volume = fills + that volume"""
+    import random
+    import warnings
+    from pams.logs.base import ExpirationLog, Logger
+    from pams.market import Market
+    from pams.order import LIMIT_ORDER, Order
+    from pams.simulator import Simulator
+    warnings.filterwarnings("ignore")
+    out, n = [], 0
+    rnd = random.Random(4000 + seed)
+
+    class Rec(Logger):
+        def __init__(self):
+            super().__init__()
+            self.seen = []
+
+        def write(self, log):
+            self.seen.append(log)
+
+        def write_and_direct_process(self, log):
+            self.seen.append(log)
+
+    for trial in range(40 if tier == "quick" else 400):
+        lg = Rec()
+        sim = Simulator(prng=random.Random(trial))
+        m = Market(market_id=0, prng=random.Random(trial), simulator=sim, name="m", logger=lg)
+        m._update_time(next_fundamental_price=100.0)
+        m._is_running = True
+        orders, script = [], []
+        filled = {}
+        t = 0
+        for step in range(rnd.randint(2, 6)):
+            for _ in range(rnd.randint(0, 3)):
+                ttl = rnd.choice([None, 1, 1, 2, 3, 5])
+                buy = rnd.random() < 0.5
+                o = Order(agent_id=1, market_id=0, is_buy=buy, kind=LIMIT_ORDER, volume=rnd.randint(1, 4),
+                          price=float(rnd.choice([95, 96, 97]) if buy else rnd.choice([103, 104, 105])), ttl=ttl)
+                vol0 = o.volume
+                m._add_order(o)
+                orders.append((o, vol0))
+                script.append(["add", t, buy, o.price, vol0, ttl])
+            if orders and rnd.random() < 0.3:
+                o, _v = rnd.choice(orders)
+                if o in (m.buy_order_book if o.is_buy else m.sell_order_book).priority_queue and o.volume > 1:
+                    x = Order(agent_id=2, market_id=0, is_buy=not o.is_buy, kind=LIMIT_ORDER, volume=1, price=o.price)
+                    m._add_order(x)
+                    for lg_ in m._execution():
+                        for oo, _ in orders:
+                            if oo.order_id in (lg_.buy_order_id, lg_.sell_order_id):
+                                filled[oo.order_id] = filled.get(oo.order_id, 0) + lg_.volume
+                    script.append(["hit", t, o.order_id])
+            jump = rnd.choice([1, 1, 2, 3, 4, 6])
+            t += jump
+            if jump == 1 and rnd.random() < 0.5:
+                m._update_time(next_fundamental_price=100.0)
+                script.append(["tick", t])
+            else:
+                m._set_time(time=t, next_fundamental_price=100.0)
+                script.append(["set_time", t])
+            n += 1
+            for o, vol0 in orders:
+                resting = o in (m.buy_order_book if o.is_buy else m.sell_order_book).priority_queue
+                due = o.ttl is not None and o.placed_at + o.ttl < t
+                recs = [x for x in lg.seen if isinstance(x, ExpirationLog) and x.order_id == o.order_id]
+                gone_by_fill = filled.get(o.order_id, 0) == vol0
+                bad = None
+                if due and resting:
+                    bad = "still resting after the clock passed accept time + ttl"
+                elif due and not gone_by_fill and len(recs) != 1:
+                    bad = f"{len(recs)} expiry records where exactly one is due"
+                elif not due and not resting and not gone_by_fill:
+                    bad = "left the book before the clock passed accept time + ttl"
+                elif not due and recs:
+                    bad = "expiry reported before the clock passed accept time + ttl"
+                elif due and len(recs) == 1 and recs[0].volume + filled.get(o.order_id, 0) != vol0:
+                    bad = "accepted volume differs from fills + volume reported at expiry"
+                if bad and len(out) < 3:
+                    out.append({"rule": "order-leaves-book-exactly-when-clock-passes-ttl", "at": n,
+                                "detail": {"what": bad, "order": {"id": o.order_id, "accepted_at": o.placed_at, "ttl": o.ttl, "accepted_volume": vol0,
+                                                                  "filled": filled.get(o.order_id, 0)},
+                                           "clock": t, "script": script, "source": "clock-jump sweep on the real Market"}})
+        if len(out) >= 3:
+            break
+    if cov is not None:
+        cov["clock_moves_checked"] = n
+    return out
+
+
 def runner_tie():
     """the per-order block of SequentialRunner._handle_orders, both copies (C09, C11)"""
     import py2coq_runner
